@@ -47,6 +47,7 @@ pub fn dispatch(ty: &str, id: &str, disc: u64, cmds: &[Vec<u64>], t: &mut Out) {
         "mapmv" => run_generic::<MapMV>(id, disc, cmds, t),
         "mapor" => run_generic::<MapOr>(id, disc, cmds, t),
         "mapmm" => run_generic::<MapMM>(id, disc, cmds, t),
+        "mapmo" => run_generic::<MapMO>(id, disc, cmds, t),
         "glist" => run_generic::<GList<u64>>(id, disc, cmds, t),
         "list" => run_generic::<List<u64, A>>(id, disc, cmds, t),
         "merkle" => run_generic::<MerkleReg<Vec<u8>>>(id, disc, cmds, t),
@@ -843,6 +844,7 @@ impl Sut for MVReg<u64, A> {
 type MapMV = Map<u64, MVReg<u64, A>, A>;
 type MapOr = Map<u64, Orswot<u64, A>, A>;
 type MapMM = Map<u64, Map<u64, MVReg<u64, A>, A>, A>;
+type MapMO = Map<u64, Map<u64, Orswot<u64, A>, A>, A>;
 
 macro_rules! map_sut {
     ($ty:ident, $name:expr, $leaf_edit:expr, $raw_leaf:expr, $leaf_reads:expr) => {
@@ -1009,6 +1011,9 @@ impl MapInfo for MapOr {
 impl MapInfo for MapMM {
     type V = Map<u64, MVReg<u64, A>, A>;
 }
+impl MapInfo for MapMO {
+    type V = Map<u64, Orswot<u64, A>, A>;
+}
 
 fn leaf_mv(v: &MVReg<u64, A>, c: AddCtx<A>, _actor: A, a: &mut Args, t: &mut Out) -> mvreg::Op<u64, A> {
     let val = a.below(4);
@@ -1074,6 +1079,39 @@ fn leaf_mm(
         }
     }
 }
+fn leaf_mo(
+    v: &Map<u64, Orswot<u64, A>, A>,
+    c: AddCtx<A>,
+    actor: A,
+    a: &mut Args,
+    t: &mut Out,
+) -> map::Op<u64, Orswot<u64, A>, A> {
+    let k2 = a.below(2);
+    match a.below(4) {
+        0..=2 => {
+            let cs = sx(&c);
+            let op = v.update(k2, c, |r, c2| leaf_or(r, c2, actor, a, t));
+            t.call("mapor.update", &[sx(v), k2.to_string(), cs, sx(&op)]);
+            op
+        }
+        _ => {
+            let r = v.get(&k2);
+            t.call("mapor.get", &[sx(v), k2.to_string(), sx(&r)]);
+            let ctx = derive_rm(r, t);
+            let cs = sx(&ctx);
+            let op = v.rm(k2, ctx);
+            t.call("mapor.rm", &[k2.to_string(), cs, sx(&op)]);
+            op
+        }
+    }
+}
+fn raw_mo(a: &mut Args) -> map::Op<u64, Orswot<u64, A>, A> {
+    if a.below(2) == 0 {
+        map::Op::Rm { clock: rand_clock(a, false), keyset: (0..a.below(3)).map(|_| a.below(2)).collect() }
+    } else {
+        map::Op::Up { dot: Dot::new(a.below(4), a.below(5)), key: a.below(2), op: raw_or(a) }
+    }
+}
 fn raw_mv(a: &mut Args) -> mvreg::Op<u64, A> {
     mvreg::Op::Put { clock: rand_clock(a, false), val: a.below(3) }
 }
@@ -1090,6 +1128,7 @@ fn raw_mm(a: &mut Args) -> map::Op<u64, MVReg<u64, A>, A> {
 map_sut!(MapMV, "mapmv", leaf_mv, raw_mv, nested_mvreg_reads);
 map_sut!(MapOr, "mapor", leaf_or, raw_or, nested_orswot_reads);
 map_sut!(MapMM, "mapmm", leaf_mm, raw_mm, nested_mapmv_reads);
+map_sut!(MapMO, "mapmo", leaf_mo, raw_mo, nested_mapor_reads);
 
 // ---------------------------------------------------------------- GList / List
 impl Sut for GList<u64> {
@@ -1563,6 +1602,11 @@ pub fn nested_mvreg_reads(s: &MVReg<u64, A>) -> String {
 }
 pub fn nested_mapmv_reads(s: &Map<u64, MVReg<u64, A>, A>) -> String {
     let mut es: Vec<(u64, String, String)> = s.iter().map(|c| (*c.val.0, sx(&c.rm_clock), nested_mvreg_reads(c.val.1))).collect();
+    es.sort();
+    format!("map len={} entries={:?}", s.len().val, es)
+}
+pub fn nested_mapor_reads(s: &Map<u64, Orswot<u64, A>, A>) -> String {
+    let mut es: Vec<(u64, String, String)> = s.iter().map(|c| (*c.val.0, sx(&c.rm_clock), nested_orswot_reads(c.val.1))).collect();
     es.sort();
     format!("map len={} entries={:?}", s.len().val, es)
 }
